@@ -508,7 +508,9 @@ def check_C02(sc, v, tier, seed, replay):
     _mc_stg(sc, v, tier)
     emu = online.prepare(sc)
     rnd = random.Random(seed * 1013 + 2)
-    shapes = [(1, 1, 1, 1, 1), (2, 2, 1, 1, 2), (2, 3, 3, 3, 3)]
+    # (reg, pdu, svc, rel, dereg): the third shape asks for more services / releases than sessions and more sessions than ... each clamp of
+    # the main program is exercised by a count larger than its prerequisite, separately for pdu < rel and reg < pdu
+    shapes = [(1, 1, 1, 1, 1), (2, 1, 3, 2, 3), (2, 3, 1, 3, 1)]
     if tier != "quick":
         shapes += [(3, 3, 3, 3, 3), (3, 2, 1, 0, 3), (2, 0, 3, 3, 1), (1, 3, 0, 2, 0), (3, 1, 2, 1, 2), (2, 2, 0, 2, 2), (2, 2, 2, 0, 0),
                    (1, 1, 0, 0, 1), (3, 3, 0, 3, 0), (2, 1, 3, 3, 3), (1, 0, 0, 0, 1), (3, 2, 2, 2, 1), (2, 2, 2, 1, 1)]
@@ -713,6 +715,17 @@ def check_C12(sc, v, tier, seed, replay):
                      "withAmbr": rnd.random() < 0.6,
                      "ambrDl": big(rnd.choice([0, 1, 255, 256, 65535, 65536, 1 << 32, 4000000000000, rnd.randrange(4000000000001)])),
                      "ambrUl": big(rnd.choice([0, 1, 1 << 16, 1 << 24, 1 << 40, 4000000000000]))})
+    # dense sweeps through the transfer extractor alone: every aggregate bit rate 0..300 (DL and UL), every 256^k - 1, 256^k, 256^k + 1
+    # up to 4e12, rates whose octets contain the identifier of a later IE (00 8B, 00 86, 00 88), TEID / address corners
+    rates = list(range(0, 301)) + [x for k in range(1, 6) for x in (256 ** k - 1, 256 ** k, 256 ** k + 1)] + [4000000000000, 0x8B00, 0x8B0000, 0x01008B, 0x8600, 0x018800, 0x008B008B]
+    sweep = [(r, 7) for r in rates] + [(9, r) for r in rates]
+    if tier == "quick":
+        sweep = [sweep[i] for i in range(len(sweep)) if i % 2 == seed % 2 or sweep[i][0] in (139, 134, 136, 130) or sweep[i][1] in (139, 134, 136, 130)]
+    for (dl, ul) in sweep:
+        skel.append({"id": len(skel), "transferOnly": True, "withAmbr": True, "ambrDl": big(dl), "ambrUl": big(ul),
+                     "teid": rnd.choice([[0, 0, 0, 0], [0, 139, 0, 139], [255, 255, 255, 255], [rnd.randrange(256) for _ in range(4)]]),
+                     "upf": rnd.choice([[0, 139, 0, 1], [10, 0, 0, 139], [rnd.randrange(256) for _ in range(4)]]),
+                     "psi": 1, "pti": 1, "hdr": 2, "dlCount": 0, "ies": [], "ip": [0, 0, 0, 0], "qosRules": [], "qosFlows": [1, 2, 3]})
     scnp = os.path.join(sc.work, "scn.json")
     json.dump({"cfg": {"sst": rnd.choice([1, 2, 255]), "sd": rnd.choice([[], [1, 2, 3]]), "k": [0] * 16, "op": [0] * 16, "opc": [0] * 16,
                        "mcc": [48, 48, 49], "mnc": [48, 49], "imsi": [48] * 10, "gnbId": [0, 0, 0], "gnbBits": 24, "gnbName": [65],
@@ -750,7 +763,8 @@ def check_C12(sc, v, tier, seed, replay):
     v.rule = ("(G) PDU SESSION ESTABLISHMENT ACCEPTs built by the spec's SMF (random subsets of the optional IEs of table 8.3.2.1.1 in table order, "
               "QoS rules 0..4000 octets, flow descriptions, S-NSSAI with/without SD, DNN) inside DL NAS TRANSPORT inside a protected message "
               "(header types 2, 4) and setup request transfers PER-encoded by Per.tla (aggregate bit rates 0..4e12, TEID / address corners) replayed "
-              "through the real extractors; termination: PduExtract.tla model-checked (leads replayed), every octet-class sequence up to length 3|4 "
+              "through the real extractors, plus dense transfer-only sweeps (every aggregate bit rate 0..300 and 256^k +- 1, octet patterns that "
+              "look like a later IE identifier); termination: adversarial announced lengths for every element id, PduExtract.tla model-checked (leads replayed), every octet-class sequence up to length 3|4 "
               "and random byte strings up to 4 KiB under a 2 s watchdog; distinct = distinct input")
     v.assumptions = ["the PDU address IE carries an IPv4 address; the UL NG-U tunnel is an IPv4 GTP tunnel (as the property states)"]
 
@@ -1168,6 +1182,8 @@ def _nas_run(sc, v, tier, seed, which):
         if e.get("kind") == "unknown":
             return "NAS:unknown-message-type"
         m, o = e["abs"], e["obs"]
+        if len(m["opt"]) == 1 and (m["name"], m["opt"][0]["iei"]) in _nas_isolated():
+            return "NAS:%s:IEI %02X" % (m["name"], m["opt"][0]["iei"])     # dedicated single-IE case of an IE with a recorded finding
         if o.get("err"):
             ieis = [x["iei"] for x in m["opt"]]
             return "NAS:%s:IEI %02X" % (m["name"], ieis[0]) if len(ieis) == 1 else "NAS:%s:rejected" % m["name"]
